@@ -240,6 +240,8 @@ impl TypedProgram {
         } else {
             None
         };
+        // (bound below, in a scope of their own above the consts)
+        let mut param_bindings = vec![];
         if let Some((param, elem_ty, size)) = single_array_as_multiple_parties {
             let mut wires = vec![];
             for _ in 0..*size {
@@ -250,7 +252,7 @@ impl TypedProgram {
                 }
                 input_gates.push(type_size);
             }
-            env.let_in_current_scope(param.name.clone(), wires);
+            param_bindings.push((param.name.clone(), wires));
         } else {
             for param in fn_def.params.iter() {
                 let type_size = param.ty.size_in_bits_for_defs(self, &const_sizes);
@@ -260,7 +262,7 @@ impl TypedProgram {
                     wire += 1;
                 }
                 input_gates.push(type_size);
-                env.let_in_current_scope(param.name.clone(), wires);
+                param_bindings.push((param.name.clone(), wires));
             }
         }
         if input_gates.iter().sum::<usize>() == 0 {
@@ -349,6 +351,12 @@ impl TypedProgram {
                     }
                 }
             }
+        }
+        // The outermost scope holds only the consts, the parameters live in a scope of their own
+        // (a parameter may have the name of a const and then shadows it):
+        env.push();
+        for (param_name, wires) in param_bindings {
+            env.let_in_current_scope(param_name, wires);
         }
         let output_gates = compile_block(&fn_def.body, self, &mut env, &mut circuit);
         Ok((circuit.build(output_gates), fn_def, const_sizes))
@@ -1231,12 +1239,16 @@ impl TypedExpr {
                     bindings.push((param.name.clone(), arg));
                     env.pop();
                 }
+                // the body sees the consts (outermost scope) and its parameters, but none of the
+                // variables of its callers (which might shadow a const):
+                let caller_scopes = env.0.split_off(1);
                 env.push();
                 for (var, binding) in bindings {
                     env.let_in_current_scope(var.clone(), binding);
                 }
                 let body = compile_block(&fn_def.body, prg, env, circuit);
                 env.pop();
+                env.0.extend(caller_scopes);
                 body
             }
             ExprEnum::BuiltInFnCall(BuiltInFnCall::Join {
